@@ -15,5 +15,4 @@ CONSTANTS
   Dev_CrlfBlankIndented = FALSE
 INVARIANT Refines
 INVARIANT BalanceAgrees
-INVARIANT Emit2
 CHECK_DEADLOCK FALSE
